@@ -11,7 +11,7 @@ from .common import SCtx, sctx
 from .c07 import DATA, INDEX, tctx, _private_helper
 
 PROP = "C14"
-FLOORS = {"C14.R1": 5, "C14.R2": 8, "C14.R3": 4, "C14.R4": 5, "C14.R5": 10, "C14.R6": 4, "C14.R7": 1}
+FLOORS = {"C14.R1": 5, "C14.R2": 8, "C14.R3": 4, "C14.R4": 5, "C14.R5": 10, "C14.R6": 4, "C14.R7": 1, "C14.R8": 1}
 META = {
     "explanation": "Escape/alias analysis on symbolic terms of the column lists and data dictionaries that reach unverified "
                    "(verify=False) constructors: the list handed over is fresh, never the source's own `_col_names` / `_data`; each "
@@ -607,3 +607,9 @@ def check(col: Collector):
         _checked_ctor(col)
     with col.rule():
         _column_rebinding(col)
+    # round 7: every row selection goes through the one selector implementation (which is where the scalars are carried over)
+    from . import c08
+    from .common import shared, construct_tag
+    with col.rule():
+        shared(col, "C14.R8", [c08._routing], select=lambda o: "_RowView.__getitem__" in o.construct,
+               why="a selection path of its own builds the derived table without the non-column entries")
